@@ -565,7 +565,7 @@ Section Iface.
   Variables priv emb flt : bool.
 
   Definition sourced (st : table) (t : tree) (m : rmeth) : Prop :=
-    exists m0, In m0 (all_meths t) /\ rendered_from st m0 m.
+    exists m0, picks priv emb flt t m0 /\ rendered_from st m0 m.
 
   Definition emb_loop :=
     fix go (acc : list rmeth * list string) (st : table) (l : list tree) {struct l} :=
@@ -594,7 +594,8 @@ Section Iface.
     emb_loop acc st embs = (acc', st') ->
     extends st st' /\
     (forall x, In x (fst acc') ->
-       In x (fst acc) \/ exists f, In f embs /\ sourced st' f x) /\
+       In x (fst acc) \/ exists f, In f embs /\ sourced st' f x /\
+                                   In (rm_name x) (iface_names_gen priv emb flt f)) /\
     proj acc' = fold_left (fun a f => merge (fun n : string => n) a (iface_names_gen priv emb flt f))
                           embs (proj acc).
   Proof.
@@ -607,8 +608,10 @@ Section Iface.
       split; [eapply extends_trans; eauto|]. split.
       + intros x Hx. apply S2 in Hx as [Hx|[g [Hg Hs]]].
         * apply merge_sub in Hx as [Hx|Hx]; [auto|]. right. exists f. split; [left; reflexivity|].
-          rewrite Forall_forall in S1. destruct (S1 _ Hx) as [m0 [Hm0 Hr0]].
-          exists m0. split; [assumption|]. eapply rendered_from_mono; eauto.
+          split.
+          -- rewrite Forall_forall in S1. destruct (S1 _ Hx) as [m0 [Hm0 Hr0]].
+             exists m0. split; [assumption|]. eapply rendered_from_mono; eauto.
+          -- rewrite <- N1. apply in_map. assumption.
         * right. exists g. split; [right; assumption|assumption].
       + rewrite N2. simpl. rewrite merge_proj, N1. reflexivity.
   Qed.
@@ -641,24 +644,34 @@ Section Iface.
       { induction R1 as [|m0 y ms ys Hr _ IHR]; [contradiction|].
         destruct Hx' as [<-|Hx']; [exists m0; split; [left; reflexivity|assumption]|].
         destruct (IHR Hx') as [m1 [H1 H2]]. exists m1. split; [right; assumption|assumption]. }
-      destruct H as [m0 [Hin Hr]]. exists m0. split.
-      - simpl. apply in_or_app. left. apply filter_In in Hin. tauto.
+      destruct H as [m0 [Hin Hr]]. exists m0. apply filter_In in Hin as [Hin Hv]. split.
+      - apply P_own; assumption.
       - eapply rendered_from_mono; eauto. }
     destruct (negb emb) eqn:Eemb.
     - injection H as <- <-. split; [eapply extends_trans; eauto|]. split; [apply Hsrc, extends_refl|].
       cbn [iface_names_gen]. rewrite Eemb. assumption.
     - destruct (emb_loop ([], map rm_name own') st2 embs) as [acc st3] eqn:E2. injection H as <- <-.
       destruct (emb_loop_ok embs IH _ _ _ _ (fun _ => True) E2) as [X2 [S2 N2]].
+      assert (Hp : fst (proj acc) = map rm_name (fst acc)) by reflexivity.
+      assert (Hfold : fold_left (fun a f => merge (fun n : string => n) a (iface_names_gen priv emb flt f))
+                                embs (proj ([], map rm_name own'))
+                      = fold_left merge_one_n (flat_map (iface_names_gen priv emb flt) embs)
+                                  ([], map rm_name own')).
+      { unfold merge. rewrite fold_left_flat_map. reflexivity. }
       split; [eapply extends_trans; [eassumption|]; eapply extends_trans; eauto|]. split.
       + apply Forall_app. split; [apply Hsrc; assumption|].
         apply Forall_forall. intros x Hx. apply filter_In in Hx as [Hx _].
-        apply S2 in Hx as [[]|[f [Hf [m0 [Hm0 Hr]]]]].
-        exists m0. split; [|assumption]. simpl. apply in_or_app. right.
-        apply in_flat_map. exists f. auto.
-      + rewrite map_app, (filter_map_rm (fun n => negb flt || go_ms (Tr self own embs) n)), Hnames. cbn [iface_names_gen]. rewrite Eemb. cbv zeta.
-        f_equal. f_equal.
-        assert (Hp : fst (proj acc) = map rm_name (fst acc)) by reflexivity. rewrite <- Hp, N2.
-        unfold proj. cbn [fst snd]. rewrite Hnames. reflexivity.
+        assert (Hnot : ~ In (rm_name x) (map rm_name own')).
+        { apply (merge_not_ignored (flat_map (iface_names_gen priv emb flt) embs)).
+          rewrite <- Hfold, <- N2, Hp. apply in_map. assumption. }
+        apply S2 in Hx as [[]|[f [Hf [[m0 [Hm0 Hr]] Hif]]]].
+        exists m0. split; [|assumption]. destruct Hr as [Hn Hr'].
+        apply P_emb with (f := f); [apply negb_false_iff; assumption|assumption|assumption| |].
+        * rewrite <- Hn. assumption.
+        * rewrite <- Hn. rewrite Hnames in Hnot. exact Hnot.
+      + rewrite map_app, (filter_map_rm (fun n => negb flt || go_ms (Tr self own embs) n)), Hnames.
+        cbn [iface_names_gen]. rewrite Eemb. cbv zeta. f_equal. f_equal.
+        rewrite <- Hp, N2. unfold proj. cbn [fst snd]. rewrite Hnames. reflexivity.
   Qed.
 End Iface.
 
@@ -687,8 +700,27 @@ Proof.
   intros H.
   destruct (to_iface_ok e local priv emb true t st rs st' H) as [_ [S N]].
   split; [exact N|]. apply Forall_forall. intros m Hm. rewrite Forall_forall in S.
-  destruct (S m Hm) as [m0 [Hin [Hn Hr]]]. exists m0. split; [assumption|]. split; [assumption|].
-  exact (Hr st' (extends_refl st')).
+  destruct (S m Hm) as [m0 [Hin [Hn Hr]]]. exists m0. split; [exact (picks_all _ _ _ _ _ Hin)|].
+  split; [assumption|]. exact (Hr st' (extends_refl st')).
+Qed.
+
+(* embedding at most two levels deep: every method of the result is the rendering of the
+   declaration Go selects for its name (the unique shallowest one), so its signature denotes the
+   signature of the method *T really has *)
+Lemma interface_selects e local priv emb st t rs st' :
+  height t <= 2 -> wf_tree t ->
+  to_iface e priv emb st t = (rs, st') ->
+  Forall (fun m => exists m0, find_decl t (rm_name m) = Some m0 /\ rm_name m = m_name m0 /\
+            (wf_ty (e_self e) local (meth_ty m0) -> alias_injective (active st') ->
+             denote (e_self e) local (active st') (rmeth_expr m) = Some (erase (meth_ty m0)))) rs.
+Proof.
+  intros Hh Hwf H.
+  destruct (to_iface_ok e local priv emb true t st rs st' H) as [_ [S N]].
+  apply Forall_forall. intros m Hm. rewrite Forall_forall in S.
+  destruct (S m Hm) as [m0 [Hp [Hn Hr]]]. exists m0. split; [|split; [assumption|]].
+  - rewrite Hn. apply (picks_find_decl priv emb t m0 Hp Hh Hwf).
+    rewrite <- Hn. unfold iface_names. rewrite <- N. apply in_map. assumption.
+  - exact (proj2 (Hr st' (extends_refl st'))).
 Qed.
 
 (* ------------------------------------------------------------------ ImportString binds the alias *)
